@@ -104,7 +104,9 @@ def scenarios():
         params = [("app_profile_id", ""), ("table_name", "{routing_id=projects/*}/**"), ("table_name", "{routing_id=**}"),
                   ("table_name", "projects/*/{table_location=instances/*}/tables/*"), ("name", "{routing_id=x/*/**}")]
         reqs = [{}, {"table_name": "projects/p 1/instances/i/tables/t"}, {"table_name": "regions/r"}, {"app_profile_id": "prof&=1", "table_name": ""},
-                {"table_name": "projects/p", "name": "x/9/y/z"}, {"table_name": "projects/p/instances/i/tables/t", "name": "nomatch"}, {"name": "x/7"}]
+                {"table_name": "projects/p", "name": "x/9/y/z"}, {"table_name": "projects/p/instances/i/tables/t", "name": "nomatch"}, {"name": "x/7"},
+                # a value that conforms to a template as a prefix only: the template without trailing ** must not contribute
+                {"table_name": "projects/p/instances/i/tables/t/rows/r9"}, {"name": "x", "table_name": "regions/r/projects/p"}]
 
         def call(cl, which, meth, req):
             seen.clear()
